@@ -117,10 +117,11 @@ def maybe_trailing(out, text):
 def simple_stmts(lang):
     if lang in ("JavaScript", "TypeScript"):
         return ["x = 1;", "g(x);", 's = "}{(";', "return x;", "y = g(h(1));", "c = '{';", "let z = x + 1;",
-                "o = {a: 1, b: {c: 2}};", "a.b(c).d();", "s = `t{`;", "x = y ? 1 : 2;", "var q = [1, 2];"]
+                "o = {a: 1, b: {c: 2}};", "a.b(c).d();", "s = `t{`;", "x = y ? 1 : 2;", "var q = [1, 2];",
+                "v = x > 1 ? g(x) : y;", "w = ok ? a.b(c) : d(e);"]
     if lang == "Java":
         return ["x = 1;", "g(x);", 's = "}{(";', "return x;", "y = g(h(1));", "c = '{';", "int z = x + 1;",
-                "int[] a = {1, 2};", "a.b(c).d();", "String t = \"a\\\"{\";", "x++;"]
+                "int[] a = {1, 2};", "a.b(c).d();", "String t = \"a\\\"{\";", "x++;", "v = x > 1 ? g(x) : y;"]
     if lang == "C#":
         return ["x = 1;", "g(x);", 's = "}{(";', "return x;", "y = g(h(1));", "c = '{';", "int z = x + 1;",
                 "int[] a = {1, 2};", "a.b(c).d();", "var t = \"a\\\"{\";", "x++;"]
@@ -404,6 +405,9 @@ def gen_class(out, ind, depth=0):
                 out.line((" " * (ind + 2), None, False), (rnd.choice(["x = 1;", "static y = {a: 1};", "z;"]), None, True))
             else:
                 out.line((" " * (ind + 2), None, False), (rnd.choice(["int x = 1;", "static int[] y = {1, 2};", "int z;"]), None, True))
+        elif r < 0.3 and lang == "TypeScript":
+            # bodiless declarations (overloads, abstract methods) are not function definitions
+            out.line((" " * (ind + 2), None, False), (rnd.choice(["q(a: number): void;", "abstract r(): string;", "s(x: string): Promise<void>;", "t?(): number;"]), None, True))
         elif r < 0.3 and lang in ("Java", "C#"):
             out.line((" " * (ind + 2), None, False), (rnd.choice(["abstract void q(int a);", "void q();", "int P { get; set; }" if lang == "C#" else "int q(int a);"]), None, True))
         elif r < 0.4 and depth < 2 and lang in ("Java", "C#", "C++"):
@@ -414,6 +418,9 @@ def gen_class(out, ind, depth=0):
 
 
 def global_stmt(lang, rnd):
+    if lang == "TypeScript" and rnd.random() < 0.3:
+        return rnd.choice(["interface I { foo(): string; bar(x: number): void; }", "declare function d(a: number): string;",
+                           "type T = { f(): void; g(x: number): string };", "const v = ok ? compute(a) : other;"])
     if lang in ("JavaScript", "TypeScript"):
         return rnd.choice(["const k = 1;", "let o = {a: 1};", "g(1);", "import x from 'y';", "module.exports = {a, b};", "if (x) { g(); }"])
     if lang == "Java":
